@@ -1355,8 +1355,9 @@ out:
 	}
 	if (!c)
 	{
-		/* We hit an eof char (0) */
-		if (state != json_tokener_state_finish && saved_state != json_tokener_state_finish)
+		/* We hit an eof char (0): the text may only end at the top level */
+		if (tok->depth > 0 ||
+		    (state != json_tokener_state_finish && saved_state != json_tokener_state_finish))
 			tok->err = json_tokener_error_parse_eof;
 	}
 
